@@ -127,27 +127,39 @@ def check_independent_loop(func, loop_var_iter_src, allowed_append):
             loop = n
             break
     if loop is None:
-        return False, [f"loop `for .. in range({loop_var_iter_src})` not found"], {}
+        # the bound may have been renamed or bound to a temporary: fall back to checking EVERY `for .. in range(<one argument>)`
+        # loop of the function (conservative: each of them must be free of loop-carried state)
+        cands = [n for n in ast.walk(fdef) if isinstance(n, ast.For) and isinstance(n.iter, ast.Call) and getattr(n.iter.func, "id", None) == "range"
+                 and len(n.iter.args) == 1 and not isinstance(n.iter.args[0], ast.Constant)]
+        if not cands:
+            return False, [f"loop `for .. in range({loop_var_iter_src})` not found"], {}
+        problems, infos = [], []
+        for cand in cands:
+            ok1, p1, i1 = _check_loop(fdef, cand, allowed_append)
+            problems += p1
+            infos.append(i1)
+        return (not problems), problems, {"loops": infos, "note": f"range({loop_var_iter_src}) not found by text; all range loops checked"}
+    return _check_loop(fdef, loop, allowed_append)
+
+
+def _check_loop(fdef, loop, allowed_append):
     tracked = _stores(ast.Module(body=loop.body, type_ignores=[])) | _stores(loop.target)
     w = _Walker(tracked, set(allowed_append))
     w.block(loop.body, _stores(loop.target))
     # uses after the loop of names assigned in it
-    after = False
-    for st in fdef.body:
-        if st is loop:
-            after = True
-            continue
-        if not after:
-            continue
-        if isinstance(st, ast.FunctionDef):
+    # uses, anywhere after the loop in the function text, of names assigned in it (the loop may be nested in an if/with)
+    end = loop.end_lineno
+    for st in ast.walk(fdef):
+        if isinstance(st, ast.FunctionDef) and st is not fdef and st.lineno > end:
             params = {a.arg for a in st.args.args + st.args.kwonlyargs}
             local = _stores(st) | params
             for n in ast.walk(st):
                 if isinstance(n, ast.Name) and isinstance(n.ctx, ast.Load) and n.id in tracked and n.id not in local:
                     w.problems.append(f"line {n.lineno}: nested function reads loop variable `{n.id}`")
-            continue
-        for n in ast.walk(st):
-            if isinstance(n, ast.Name) and isinstance(n.ctx, ast.Load) and n.id in tracked:
-                w.problems.append(f"line {n.lineno}: `{n.id}` assigned in the loop is read after it")
+    nested_fn_nodes = {id(n) for st in ast.walk(fdef) if isinstance(st, ast.FunctionDef) and st is not fdef for n in ast.walk(st)}
+    for n in ast.walk(fdef):
+        if isinstance(n, ast.Name) and isinstance(n.ctx, ast.Load) and n.id in tracked and n.lineno > end and id(n) not in nested_fn_nodes:
+            # a later statement that first re-assigns the name on every path is not recognised: conservative
+            w.problems.append(f"line {n.lineno}: `{n.id}` assigned in the loop is read after it")
     info = {"loop_line": loop.lineno, "names_assigned_in_loop": sorted(tracked), "allowed": sorted(map(str, allowed_append))}
     return (not w.problems), w.problems, info
